@@ -331,7 +331,9 @@ func TestC13Large(t *testing.T) {
 			c13Large{Start: 1<<32 - 17, Chunk: 65537, Steps: 40, PatSeed: uint64(seed) + 4},
 			c13Large{Start: 1<<32 - 1, Chunk: 17, Steps: 17, PatSeed: uint64(seed) + 5},
 			c13Large{Start: 3<<32 - 1, Chunk: 1<<20 - 3, Steps: 17, PatSeed: uint64(seed) + 6},
-			c13Large{Start: 1<<34 - 1, Chunk: 1 << 20, Steps: 17, PatSeed: uint64(seed) + 7})
+			c13Large{Start: 1<<34 - 1, Chunk: 1 << 20, Steps: 17, PatSeed: uint64(seed) + 7},
+			// 2^36 bytes = 2^32 stripes of 16 bytes: where a 32-bit stripe counter would wrap (about a minute)
+			c13Large{Start: 1<<36 - 1, Chunk: 1 << 20, Steps: 17, PatSeed: uint64(seed) + 8})
 	}
 	if nshards > 1 {
 		// one large case per shard
